@@ -1,0 +1,46 @@
+//go:build verif
+
+package p2p
+
+import (
+	"context"
+	"sort"
+
+	pubsub "github.com/libp2p/go-libp2p-pubsub"
+)
+
+// VerifCombinedValidator returns, for a topic, the very function that P2PNode.Run registers
+// with libp2p-pubsub as the topic validator (ValidatorRegistry.GetCombinedValidator over the
+// validators added so far through AddValidator / AddMessageHandler).
+func (m *P2PMessaging) VerifCombinedValidator(topic string) pubsub.ValidatorEx {
+	return m.validatorRegistry.GetCombinedValidator(topic)
+}
+
+// VerifValidatedTopics lists the topics that have at least one validator, sorted.
+func (m *P2PMessaging) VerifValidatedTopics() []string {
+	topics := make([]string, 0, len(m.validatorRegistry))
+	for topic := range m.validatorRegistry {
+		topics = append(topics, topic)
+	}
+	sort.Strings(topics)
+	return topics
+}
+
+// VerifNumValidators returns the number of validators registered for the topic.
+func (m *P2PMessaging) VerifNumValidators(topic string) int {
+	return len(m.validatorRegistry[topic])
+}
+
+// VerifGossipTopics lists the topics the node would subscribe to, sorted.
+func (m *P2PMessaging) VerifGossipTopics() []string {
+	topics := m.topics()
+	sort.Strings(topics)
+	return topics
+}
+
+// VerifHandlePubsubMessage runs the unexported handle, i.e. what runHandleMessages does with
+// one message taken from the gossip channel: unmarshal, dispatch to the registered handler
+// functions, send the resulting messages.
+func (m *P2PMessaging) VerifHandlePubsubMessage(ctx context.Context, msg *pubsub.Message) error {
+	return m.handle(ctx, msg)
+}
